@@ -16,7 +16,7 @@
 (* follows the rule; mode STORE and EntriesTrue show that entries are      *)
 (* true; these two theorems close the argument for one probe.              *)
 (***************************************************************************)
-EXTENDS Integers, TTProbe, TLAPS
+EXTENDS Integers, TTProbe
 
 Entry == [depth : Int, bound : {"E", "L", "U"}, score : Int]
 
